@@ -974,3 +974,74 @@ func g24FirstArgNotNil(c *Ctx) bool {
 }
 
 var g24Memo = map[*Repo]bool{}
+
+// g25FieldRendering — how a struct field is written depends on whether it is embedded (`T`, not `T T`). A function of the driver
+// that turns fields (a []*types.Var parameter or the fields of a *types.Struct) into text lines ([]string result) must leave
+// that decision to go/types (types.NewStruct + TypeString) or consult Embedded()/Anonymous() itself: composing a line from
+// Var.Name() and the field's type prints an embedded field as a named one, which is another struct type.
+func g25FieldRendering(r *Repo, rep *Report) {
+	n := 0
+	for _, fi := range r.sortedFuncs() {
+		if fi.Pkg.Name != "derive" {
+			continue
+		}
+		sig := fi.Fn.Type().(*types.Signature)
+		takesFields := false
+		for i := 0; i < sig.Params().Len(); i++ {
+			t := sig.Params().At(i).Type().String()
+			if t == "[]*go/types.Var" || t == "*go/types.Struct" {
+				takesFields = true
+			}
+		}
+		returnsLines := false
+		for i := 0; i < sig.Results().Len(); i++ {
+			if sig.Results().At(i).Type().String() == "[]string" {
+				returnsLines = true
+			}
+		}
+		if !takesFields || !returnsLines {
+			continue
+		}
+		n++
+		info := fi.Pkg.TypesInfo
+		var nameCall ast.Node
+		consults := false
+		ast.Inspect(fi.Decl.Body, func(m ast.Node) bool {
+			c, ok := m.(*ast.CallExpr)
+			if !ok {
+				return true
+			}
+			fn, ok := callee(info, c).(*types.Func)
+			if !ok || fn.Pkg() == nil || fn.Pkg().Path() != "go/types" {
+				return true
+			}
+			// Name() is promoted from the embedded object: look at the type of the receiver expression
+			sel, ok := c.Fun.(*ast.SelectorExpr)
+			if !ok {
+				return true
+			}
+			if t := info.TypeOf(sel.X); t == nil || !strings.HasSuffix(t.String(), "types.Var") {
+				return true
+			}
+			switch fn.Name() {
+			case "Name":
+				if nameCall == nil {
+					nameCall = c
+				}
+			case "Embedded", "Anonymous":
+				consults = true
+			}
+			return true
+		})
+		if nameCall != nil && !consults {
+			rep.fail(Finding{Rule: "G25", Key: "G25|field-rendering|" + funcKey(fi.Fn), Where: []string{r.pos(nameCall.Pos())},
+				Msg: funcKey(fi.Fn) + " composes the text of struct fields from Var.Name() without consulting Embedded(): an embedded field `T` is printed as `T T`, which is a different struct type, so a function generated for an unnamed struct with an embedded field does not accept its argument"})
+		} else {
+			rep.pass("G25")
+		}
+	}
+	rep.analysed("field_rendering_functions", n)
+	if n == 0 {
+		rep.fail(Finding{Rule: "G25", Key: "G25|field-rendering|floor", Kind: "undecided", Msg: "no function of package derive turns struct fields into text lines (FieldStrings was confirmed by hand)"})
+	}
+}
